@@ -795,7 +795,7 @@ impl Shared {
                         opts.push((E::ServerDisconnect, true));
                     }
                     if self.cfg.broker.stale_acks && self.broker.connected {
-                        for k in 0..4u8 {
+                        for k in 0..6u8 {
                             opts.push((E::StaleAck(k), true));
                         }
                     }
@@ -915,20 +915,23 @@ impl Shared {
                         true
                     }
                     E::StaleAck(k) => {
-                        let kind = match k {
-                            0 => mr::AckKind::PubAck,
-                            1 => mr::AckKind::PubRec,
-                            2 => mr::AckKind::PubComp,
-                            _ => mr::AckKind::PubRel,
+                        // (4 and 5: the stale acknowledgement carries a failure code)
+                        let (kind, reason) = match k {
+                            0 => (mr::AckKind::PubAck, 0),
+                            1 => (mr::AckKind::PubRec, 0),
+                            2 => (mr::AckKind::PubComp, 0),
+                            3 => (mr::AckKind::PubRel, 0),
+                            4 => (mr::AckKind::PubRec, 0x97),
+                            _ => (mr::AckKind::PubAck, 0x80),
                         };
                         self.push_inbound(
                             c,
                             SPacket::Ack {
                                 kind,
                                 pid: 777,
-                                reason: 0,
+                                reason,
                                 props: vec![],
-                                form: 0,
+                                form: if reason == 0 { 0 } else { 1 },
                             },
                         );
                         true
